@@ -360,6 +360,10 @@ AddNano(i, n) ==
     IF t < 0 THEN LET j == AddSec(i, -1) IN <<j[1], j[2], t + 1000000000>>
     ELSE IF t >= 1000000000 THEN LET j == AddSec(i, 1) IN <<j[1], j[2], t - 1000000000>>
     ELSE <<i[1], i[2], t>>
+ExpiresValues == << B("1"), B("60"), B("900"), B("3600"), B("86400"), B("604800"), B("0"), B("-1"), B("abc") >>
+ExpiresAges == << -1200, -901, -900, -899, -300, -61, -59, 0, 59, 899, 900, 901 >>
+FracNows == << Inst(2015, 8, 30, 12, 36, 0, 900000000), Inst(2015, 8, 30, 12, 36, 0, 500000000), Inst(2015, 8, 30, 12, 36, 0, 1),
+               Inst(2015, 8, 30, 23, 59, 59, 999999999) >>
 \* whole-second offsets; Bound = 0: +-(880..920); Bound = 1: every second of [-1200, 1200]
 NumOffsets == IF Bound = 0 THEN 82 ELSE 2401
 OffsetOf(k) == IF Bound = 0 THEN (IF k <= 41 THEN -(879 + k) ELSE 879 + (k - 41)) ELSE k - 1201
@@ -513,6 +517,20 @@ DupCases == <<
     WithPost([QryB EXCEPT !.L.ts = B("20150830T120000Z")], << [k |-> "hdrins", at |-> 2, name |-> B("Date"), v |-> TsA] >>, NoOver),
     WithPost(QryB, << [k |-> "hdrins", at |-> 2, name |-> B("X-Amz-Date"), v |-> B("20150830T120000Z")] >>, NoOver),
     WithPost(QryB, << [k |-> "hdrins", at |-> 2, name |-> B("Date"), v |-> B("20150829T120000Z")] >>, NoOver),
+    \* a repeated X-Amz-* parameter whose name is spelled with an escape is still the same parameter: the first counts
+    WithPost(QryB, << QUri(QPre \o B("&X%2DAmz-Credential=") \o Enc(CredOf(B("WRONG")))
+                          \o B("&X-Amz-Date=20150830T123600Z&X-Amz-SignedHeaders=host&X-Amz-Signature=") \o bSIG) >>, NoOver),
+    WithPost(QryB, << QUri(B("/?X-Amz-Algorithm=AWS4-HMAC-SHA256&X%2dAmz%2dCredential=") \o Enc(CredOf(B("AKIDEXAMPLE")))
+                          \o B("&X-Amz-Credential=") \o Enc(CredOf(B("WRONG")))
+                          \o B("&X-Amz-Date=20150830T123600Z&X-Amz-SignedHeaders=host&X-Amz-Signature=") \o bSIG) >>, NoOver),
+    WithPost(QryB, << QUri(QPre \o B("&X-Amz-Date=20150830T123600Z&X-Amz%2DDate=20150830T110000Z&X-Amz-SignedHeaders=host&X-Amz-Signature=") \o bSIG
+                          \o B("&X-Amz-Signatur%65=00")) >>, NoOver),
+    \* a folded form body whose X-Amz-Credential names another scope than the URL's: the URL's counts
+    WithPost([QryB EXCEPT !.cfg.fold = TRUE, !.L.method = B("POST"), !.L.hdrs = @ \o <<FormHdr>>,
+                          !.L.scope = [@ EXCEPT ![2] = B("eu-west-1")],
+                          !.L.body = B("X-Amz-Credential=") \o Enc(CredOf(B("AKIDEXAMPLE")))], <<>>, NoOver),
+    WithPost([QryB EXCEPT !.cfg.fold = TRUE, !.L.method = B("POST"), !.L.hdrs = @ \o <<FormHdr>>,
+                          !.L.body = B("X-Amz-Credential=") \o Enc(B("AKIDEXAMPLE/20150830/eu-west-1/service/aws4_request"))], <<>>, NoOver),
     \* two Content-Type headers with folding enabled: the first one decides whether the body is a form
     WithPost([HdrB EXCEPT !.cfg.fold = TRUE, !.L.method = B("POST"), !.L.body = B("a=1"),
                           !.L.hdrs = @ \o << FormHdr, <<B("Content-Type"), B("text/plain")>> >>,
@@ -579,6 +597,11 @@ Degenerate == <<
        [k |-> "hdrins", at |-> 1, name |-> B("Content-Type"), v |-> B("application/x-www-form-urlencoded")] >> >>
 
 \* C07: positions at which the presented signature first differs from the expected one (-1 = control repeat of 0)
+\* base requests of the timing family: 1 default, 2 rich, 3 path+query, 4 / 5 / 6: a request carrying a nonce that the
+\* harness chooses so that the CORRECT signature has a particular shape (leading "0", leading "00", trailing "0") -
+\* code that treats such signatures specially is then exercised
+CtReqs == IF Bound = 0 THEN <<1, 4>> ELSE <<1, 2, 3, 4, 5, 6>>
+CtNonce(r) == CASE r = 4 -> "lead0" [] r = 5 -> "lead00" [] r = 6 -> "trail0" [] OTHER -> ""
 CtPositions == IF Bound = 0 THEN <<0, -1, 1, 2, 15, 31, 32, 47, 62, 63>>
                ELSE <<0, -1>> \o [k \in 1..63 |-> k]
 
@@ -617,13 +640,18 @@ Dim(k) ==
       \* Bound 0: URL and body lists of <= 1 component, bodies as sent; 1: three lists (incl. the same name in both)
       \* with body variants and post-signing body flips; 2: every pair of lists of <= 2 components
       [] Family = "fold"     -> V(CASE Bound = 0 -> <<2, 7, 7, Len(ContentTypes), 2, 1, 1>>
-                                    [] Bound = 1 -> <<2, 3, 3, 6, 3, 5, 3>>
+                                    [] Bound = 1 -> <<2, 3, 3, 6, 3, 7, 3>>
+                                    [] Bound = 3 -> <<1, 3, 3, 1, 3, 7, 1>>     \* a small slice for the query property
                                     [] OTHER -> <<2, 43, 43, Len(ContentTypes), 2, 1, 2>>, k)
       [] Family = "dup"      -> V(<<Len(DupCases)>>, k)
       \* carrier, folding, requirement kind, which header it concerns, is that header signed
-      [] Family = "reqfold"  -> V(<<2, 2, 4, 4, 2>>, k)
+      [] Family = "reqfold"  -> V(<<2, 2, 6, 4, 2>>, k)
       \* carrier, component, shift, length
       [] Family = "leak_long" -> V(<<2, 6, 2, 3>>, k)
+      \* carrier, X-Amz-Expires value, where it travels, age of the request
+      [] Family = "expires"  -> V(<<2, Len(ExpiresValues), 2, Len(ExpiresAges)>>, k)
+      \* carrier, server instant with a fraction, probe, rendering
+      [] Family = "window_frac" -> V(<<2, Len(FracNows), 14, 2>>, k)
       \* the full product of configuration switches: carrier, S3, folding, requirement container, body type, provider
       \* kind, session token, logger, target form, request shape, defect
       [] Family = "cfgmix"   -> V(<<2, 2, 2, 3, 3, 2, 2, 2, 2, 3, 4>>, k)
@@ -636,7 +664,7 @@ Dim(k) ==
       [] Family = "logical"  -> V(<<Len(Logical)>>, k)
       [] Family = "suite"    -> V(<<Len(Wires), 2, 2>>, k)
       \* request, key, position, variant (1 plain lower-case guess, 2 upper-case guess, 3 logger enabled at Trace level)
-      [] Family = "ct"       -> V(<<IF Bound = 0 THEN 1 ELSE 3, IF Bound = 0 THEN 1 ELSE 2, Len(CtPositions), 3>>, k)
+      [] Family = "ct"       -> V(<<Len(CtReqs), IF Bound = 0 THEN 1 ELSE 2, Len(CtPositions), 3>>, k)
       [] Family = "charsets" -> V(<<Len(CharsetLabels), IF Bound = 0 THEN 3 ELSE Len(CharsetBodies), 2>>, k)
       [] Family = "degenerate" -> V(<<Len(Degenerate), 2>>, k)
       [] Family = "passthru" -> V(<<2, Len(Methods), Len(Versions), Len(HdrSets), 3, 2>>, k)
@@ -754,6 +782,8 @@ BundleOf ==
                           [] idx[6] = 3 -> (IF body0 = <<>> THEN <<>> ELSE body0 \o <<AMP>>) \o B("c=%zz")
                           [] idx[6] = 4 -> <<239, 187, 191>> \o body0 \o B("&z=1")            \* UTF-8 byte-order mark: data
                           [] idx[6] = 5 -> <<255, 254>> \o body0                              \* UTF-16 byte-order mark: not UTF-8
+                          [] idx[6] = 6 -> body0 \o <<10>>                                    \* a trailing line feed is data
+                          [] idx[6] = 7 -> B("z=") \o <<13, 10>> \o (IF body0 = <<>> THEN <<>> ELSE <<AMP>> \o body0) \o <<13, 10>>
                 L1   == [b.L EXCEPT !.method = B("POST"), !.query = FoldList(idx[2]), !.body = body,
                                     !.hdrs = @ \o (IF ct = <<>> THEN <<>> ELSE << <<B("Content-Type"), ct>> >>)]
             \* idx[5]: folding off / on / on together with the (unrelated) S3 flag
@@ -775,8 +805,10 @@ BundleOf ==
                                                       <<B("Content-Length"), B("3")>>, <<B("X-Amz-Meta-A"), B("1")>> >>]
             IN [b EXCEPT !.L = [L1 EXCEPT !.signed = SortLex(base \o (IF idx[5] = 1 THEN <<LowerSeq(n)>> ELSE <<>>))],
                          !.cfg.fold = Bool(idx[2]),
-                         !.cfg.always = IF idx[3] = 1 THEN <<n>> ELSE <<>>,
-                         !.cfg.ifin   = IF idx[3] = 2 THEN <<n>> ELSE <<>>,
+                         \* kinds 5 / 6 name a proper prefix of the header as an exact (if-in-request / always) requirement:
+                         \* exact requirements are matched on the whole name
+                         !.cfg.always = CASE idx[3] = 1 -> <<n>> [] idx[3] = 6 -> <<SubSeq(n, 1, Len(n) - 2)>> [] OTHER -> <<>>,
+                         !.cfg.ifin   = CASE idx[3] = 2 -> <<n>> [] idx[3] = 5 -> <<SubSeq(n, 1, Len(n) - 2)>> [] OTHER -> <<>>,
                          !.cfg.prefix = CASE idx[3] = 3 -> <<SubSeq(n, 1, Len(n) - 2)>> [] idx[3] = 4 -> <<SubSeq(LowerSeq(n), 1, 3)>> [] OTHER -> <<>>]
       [] Family = "cfgmix" ->
             LET b     == Bundle0(CarrierOf(idx[1]))
@@ -796,6 +828,24 @@ BundleOf ==
                                    !.script.principal = 1000 + idx[4] * 100 + idx[5] * 10 + idx[10]]
             IN CASE idx[11] = 1 -> b2 [] idx[11] = 2 -> Inject(b2, 16, 1) [] idx[11] = 3 -> Inject(b2, 11, 1)
                  [] OTHER -> Inject(b2, 9, 2)
+      [] Family = "expires" ->
+            \* the window is fixed: an X-Amz-Expires parameter / header (signed, like any other) neither widens nor narrows it
+            LET b   == Bundle0(CarrierOf(idx[1]))
+                ev  == ExpiresValues[idx[2]]
+                inst == AddSec(NowBase, ExpiresAges[idx[4]])
+                L1  == IF idx[3] = 1 THEN [b.L EXCEPT !.query = B("X-Amz-Expires=") \o ev]
+                       ELSE [b.L EXCEPT !.hdrs = @ \o << <<B("X-Amz-Expires"), ev>> >>]
+            IN [b EXCEPT !.L = [L1 EXCEPT !.signed = SignAll(L1), !.ts = RenderTs(inst, 1), !.scope = [@ EXCEPT ![1] = ScopeDate(inst)]]]
+      [] Family = "window_frac" ->
+            LET b    == Bundle0(CarrierOf(idx[1]))
+                now  == FracNows[idx[2]]
+                whole == <<now[1], now[2], 0>>
+                k    == idx[3]
+                inst == IF k <= 6 THEN AddSec(whole, <<-901, -900, -899, 899, 900, 901>>[k])
+                        ELSE LET pr == << <<-900, -1>>, <<-900, 0>>, <<-900, 1>>, <<900, -1>>, <<900, 0>>, <<900, 1>>, <<-901, 0>>, <<901, 0>> >>[k - 6]
+                             IN AddNano(AddSec(now, pr[1]), pr[2])
+            IN [b EXCEPT !.L.ts = RenderTs(inst, IF idx[4] = 1 THEN 1 ELSE 2), !.cfg.now = now,
+                         !.L.scope = [@ EXCEPT ![1] = ScopeDate(inst)]]
       [] Family = "leak_long" ->
             \* long components with two-byte characters at every byte offset (shift 0 / 1), logger enabled at Trace level
             LET b    == Bundle0(CarrierOf(idx[1]))
@@ -884,8 +934,10 @@ BundleOf ==
                                       !.over = [sent |-> TRUE], !.cfg.fold = Bool(idx[2]),
                                       !.cfg.provider = IF idx[3] = 1 THEN "fn" ELSE "scripted"]
       [] Family = "ct" ->
-            LET b0 == CASE idx[1] = 1 -> Bundle0("hdr") [] idx[1] = 2 -> RichB("hdr")
-                        [] idx[1] = 3 -> [Bundle0("hdr") EXCEPT !.L.path = B("/a/b"), !.L.query = B("x=1&y=2")]
+            LET rq == CtReqs[idx[1]]
+                b0 == CASE rq = 1 -> Bundle0("hdr") [] rq = 2 -> RichB("hdr")
+                        [] rq = 3 -> [Bundle0("hdr") EXCEPT !.L.path = B("/a/b"), !.L.query = B("x=1&y=2")]
+                        [] OTHER -> [Bundle0("hdr") EXCEPT !.L.query = B("n=NONCE0000")]
                 sec == IF idx[2] = 1 THEN Secret1 ELSE Secret2
                 p   == CtPositions[idx[3]]
             IN [b0 EXCEPT !.script.secret = sec, !.signSecret = sec,
@@ -910,9 +962,9 @@ BundleOf ==
 
 Case == CaseOfBundle(BundleOf, <<Family>> \o idx)
         @@ (IF Family = "ct"
-            THEN [group |-> <<idx[1], idx[2], idx[4]>>, tracelog |-> idx[4] = 3,
+            THEN [group |-> <<CtReqs[idx[1]], idx[2], idx[4]>>, tracelog |-> idx[4] = 3, nonce |-> CtNonce(CtReqs[idx[1]]),
                   who |-> IF idx[3] = 1 THEN "ref" ELSE IF CtPositions[idx[3]] < 0 THEN "control-0" ELSE "p" \o ToString(CtPositions[idx[3]])]
-            ELSE [group |-> 0, who |-> "", tracelog |-> FALSE])
+            ELSE [group |-> 0, who |-> "", tracelog |-> FALSE, nonce |-> ""])
 
 \* abstract/concrete consistency: the earliest injected defect is the rule the byte-level reading reports
 \* (rule 16 is not a structural rule; 0 = none)
